@@ -73,7 +73,7 @@ fn main() {
             let mut samples: Vec<Vec<String>> = vec![];
             let mut run_case = |lines: Vec<String>, stats: &mut Stats, from_corpus: bool| {
                 let o = exec_caught(area.as_ref(), &lines, stats);
-                assert_eq!(o.outs.len(), lines.len(), "area returned wrong number of outputs");
+                assert_eq!(o.outs.len(), o.model_lines.as_ref().map(|m| m.len()).unwrap_or(lines.len()), "area returned wrong number of outputs");
                 writeln!(req, "case").unwrap(); writeln!(imp, "case").unwrap();
                 let ml = o.model_lines.clone().unwrap_or_else(|| lines.clone());
                 for (l, r) in ml.iter().zip(o.outs.iter()) { writeln!(req, "{}", l).unwrap(); writeln!(imp, "{}", r).unwrap(); }
